@@ -7,7 +7,7 @@
 (* examined).  Lines are spread over NChunk first-level states so that all *)
 (* workers take part.                                                      *)
 (***************************************************************************)
-EXTENDS QueryRef, Update
+EXTENDS QueryRef, Update, SortDistinct, Projection
 
 Trace == ndJsonDeserialize("trace.ndjson")
 N == Len(Trace)
@@ -50,9 +50,48 @@ CheckApply(e, line) ==
   ELSE /\ (Like(r.doc, e.res.doc) \/ Bad(line, "apply-doc", r.doc, e.res.doc))
        /\ (RecLike(r.rec, e.res.rec) \/ Bad(line, "apply-changes", r.rec, e.res.rec))
 
+(* Find through the driver API over a collection holding e.docs in this order *)
+SortCrossesArray(docs, cols) ==
+  \E i \in 1..Len(docs) : \E j \in 1..Len(cols) :
+     \/ Traverses(docs[i], cols[j].p)
+     \/ Get(docs[i], cols[j].p) = EmptyArr
+CheckFind(e, line) ==
+  LET exp == IF e.docs = <<>> THEN [err |-> FALSE, list |-> <<>>]     \* a collection that does not exist: empty result, nothing is validated
+             ELSE FindImpl(e.docs, e.q, e.sort, e.skip, e.limit)
+      cs == IF e.sort.f = <<>> THEN [err |-> FALSE, cols |-> <<>>] ELSE Columns(e.sort)
+      indom == ~cs.err /\ ~SortCrossesArray(e.docs, cs.cols)       \* C13 sort-key domain (DESIGN.md 8.3)
+      noerr == \A i \in 1..Len(e.docs) : MatchImpl(e.docs[i], e.q) # "E"
+  IN IF ~indom /\ ~cs.err THEN PrintT(<<"OUTDOM", line>>)
+     ELSE /\ PrintT(<<"INDOM", line>>)
+          /\ IF exp.err # e.res.err THEN Bad(line, "find-error", exp.err, e.res.err)
+             ELSE IF exp.err THEN TRUE
+             ELSE /\ (exp.list = e.res.docs \/ Bad(line, "find-docs", exp.list, e.res.docs))
+                  /\ (noerr => (LET ref == FindRef(e.docs, e.q, cs.cols, e.skip, e.limit) IN
+                                 ref = e.res.docs \/ Bad(line, "find-ref", ref, e.res.docs)))
+                  /\ (NonDecreasing(e.res.docs, cs.cols) \/ Bad(line, "find-order", "non-decreasing", e.res.docs))
+
+CheckDistinct(e, line) ==
+  LET f == Filter(e.docs, e.q, 0) IN
+  IF f.err # e.res.err THEN Bad(line, "distinct-error", f.err, e.res.err)
+  ELSE IF f.err THEN TRUE
+  ELSE DistinctOK(e.res.vals, f.list, PathOf(e.path))
+       \/ Bad(line, "distinct", DistinctValues(f.list, PathOf(e.path)), e.res.vals)
+
+CheckProject(e, line) ==
+  LET exp == Project(e.doc, e.proj) IN
+  IF ~InProjDomain(e.doc, e.proj) THEN PrintT(<<"OUTDOM", line>>)
+  ELSE /\ PrintT(<<"INDOM", line>>)
+       /\ IF exp.err # e.res.err THEN Bad(line, "project-error", exp.err, e.res.err)
+          ELSE IF exp.err THEN TRUE
+          ELSE /\ (exp.doc = e.res.doc \/ Bad(line, "project-doc", exp.doc, e.res.doc))
+               /\ (SubDocument(e.res.doc, e.doc) \/ Bad(line, "project-subdocument", e.doc, e.res.doc))
+
 CheckCase(e, line) ==
   CASE e.fn = "match" -> CheckMatch(e, line)
     [] e.fn = "apply" -> CheckApply(e, line)
+    [] e.fn = "find" -> CheckFind(e, line)
+    [] e.fn = "distinct" -> CheckDistinct(e, line)
+    [] e.fn = "project" -> CheckProject(e, line)
     [] OTHER -> Bad(line, "unknown fn", e.fn, "")
 
 Checked == l # 0 => CheckCase(Trace[l], l)
